@@ -41,7 +41,7 @@ func digestEntries(es []*raft.LogEntry) string {
 
 func TestE1Transport(t *testing.T) {
 	rep := NewReport("E1-transport")
-	rep.Rule = "two real transports on loopback; seeded AppendEntries / RequestVote / InstallSnapshot requests (integer fields from the E1-codec value classes, ids ASCII/non-ASCII, 0-7 entries of all three types, payloads nil/empty/small/KB and groups of 2-4 entries adding up to 0.3-3.5 MiB, snapshot chunks 0 B-6 MiB) and generated responses; the request seen by the registered handler and the response seen by the caller are compared field by field with what was passed in; beyond the 4 MiB message limit an error is accepted, a delivered message must be intact; non-trivial = delivered"
+	rep.Rule = "real transports on loopback (one sender, the receiver b, and two further peers: c on b's IP address with another port, d on b's port with another loopback address; every fifth step a request is addressed to c or d and must be handled there and answered from there); seeded AppendEntries / RequestVote / InstallSnapshot requests (integer fields from the E1-codec value classes, ids ASCII/non-ASCII, 0-7 entries of all three types, payloads nil/empty/small/KB and groups of 2-4 entries adding up to 0.3-3.5 MiB, snapshot chunks 0 B-6 MiB) and generated responses; the request seen by the registered handler and the response seen by the caller are compared field by field with what was passed in; beyond the 4 MiB message limit an error is accepted, a delivered message must be intact; non-trivial = delivered"
 	defer rep.Write()
 	rng := NewRng(Seed() + 31)
 	n := EnvInt("VERIF_N", 120)
@@ -90,6 +90,103 @@ func TestE1Transport(t *testing.T) {
 	}
 	defer a.Shutdown()
 	defer b.Shutdown()
+	// further peers of the same sender: c shares b's IP address (another port), d shares b's port (another
+	// loopback address, when the host lets us bind it). A request must reach the peer it was addressed to
+	// and the answer must be that peer's: every cluster-level theorem assumes it of the network.
+	type peer struct {
+		name, addr string
+		tr         raft.Transport
+		last       string
+		seen       int
+	}
+	var peers []*peer
+	mkPeer := func(name, addr string) {
+		tr, err := raft.NewTransport(addr)
+		if err != nil {
+			return
+		}
+		p := &peer{name: name, addr: addr, tr: tr}
+		tr.RegisterAppendEntriesHandler(func(q *raft.AppendEntriesRequest, r *raft.AppendEntriesResponse) error {
+			mu.Lock()
+			defer mu.Unlock()
+			p.last, p.seen = q.LeaderID, p.seen+1
+			r.Term, r.Index, r.Success = q.Term+1, uint64(len(name)), true
+			return nil
+		})
+		tr.RegisterRequestVoteHandler(func(q *raft.RequestVoteRequest, r *raft.RequestVoteResponse) error {
+			mu.Lock()
+			defer mu.Unlock()
+			p.last, p.seen = q.CandidateID, p.seen+1
+			r.Term, r.VoteGranted = q.Term+1, true
+			return nil
+		})
+		tr.RegsiterInstallSnapshotHandler(func(q *raft.InstallSnapshotRequest, r *raft.InstallSnapshotResponse) error {
+			mu.Lock()
+			defer mu.Unlock()
+			p.last, p.seen = q.LeaderID, p.seen+1
+			r.Term, r.BytesWritten = q.Term+1, int64(len(q.Bytes))
+			return nil
+		})
+		if err := tr.Run(); err != nil {
+			return
+		}
+		peers = append(peers, p)
+	}
+	mkPeer("c", freeAddr(t))
+	if _, port, err := net.SplitHostPort(baddr); err == nil {
+		mkPeer("d", net.JoinHostPort("127.0.0.2", port))
+	}
+	defer func() {
+		for _, p := range peers {
+			p.tr.Shutdown()
+		}
+	}()
+	probePeer := func(i int) {
+		if len(peers) == 0 {
+			return
+		}
+		p := peers[(i/5)%len(peers)]
+		tag := fmt.Sprintf("to-%s-%d", p.name, i)
+		term := uint64(1000 + i)
+		mu.Lock()
+		gotAE, gotRV, gotIS = raft.AppendEntriesRequest{}, raft.RequestVoteRequest{}, raft.InstallSnapshotRequest{}
+		respAE, respRV, respIS = raft.AppendEntriesResponse{Term: 5}, raft.RequestVoteResponse{Term: 5}, raft.InstallSnapshotResponse{Term: 5}
+		before := p.seen
+		mu.Unlock()
+		var rterm uint64
+		var err error
+		kind := []string{"AE", "RV", "IS"}[(i/5/len(peers))%3]
+		switch kind {
+		case "AE":
+			var r raft.AppendEntriesResponse
+			r, err = a.SendAppendEntries(p.addr, raft.AppendEntriesRequest{LeaderID: tag, Term: term})
+			rterm = r.Term
+		case "RV":
+			var r raft.RequestVoteResponse
+			r, err = a.SendRequestVote(p.addr, raft.RequestVoteRequest{CandidateID: tag, Term: term})
+			rterm = r.Term
+		default:
+			var r raft.InstallSnapshotResponse
+			r, err = a.SendInstallSnapshot(p.addr, raft.InstallSnapshotRequest{LeaderID: tag, Term: term, Bytes: []byte("xyz")})
+			rterm = r.Term
+		}
+		line := fmt.Sprintf("ADDRESSEE | %s sent by a to peer %s at %s (b is at %s)", kind, p.name, p.addr, baddr)
+		rep.Case(fmt.Sprintf("%s #%d", line, i), err == nil)
+		rep.Hit("addressee-" + p.name + "-" + kind)
+		mu.Lock()
+		arrived := p.seen == before+1 && p.last == tag
+		atB := gotAE.LeaderID == tag || gotRV.CandidateID == tag || gotIS.LeaderID == tag
+		mu.Unlock()
+		if err != nil && !atB {
+			rep.Add(Finding{Kind: "oracle", Property: "NET", Oracle: "a request to a further peer of the same sender was not delivered: " + err.Error(), Case: line, Signature: map[string]string{"oracle": "transport-delivers"}})
+			return
+		}
+		if !arrived || atB || rterm != term+1 {
+			rep.Add(Finding{Kind: "oracle", Property: "NET", Oracle: "a request was not handled by the peer it was addressed to (a sender with several peers: same IP address and another port, same port and another address)", Case: line,
+				Impl:      fmt.Sprintf("handled by the addressed peer: %v; handled by b: %v; answer carries term %d (the addressed peer answers %d, b answers 5)", arrived, atB, rterm, term+1),
+				Signature: map[string]string{"oracle": "transport-delivers-to-addressee"}})
+		}
+	}
 	big := func(size int) []byte {
 		d := make([]byte, size)
 		for i := range d {
@@ -130,6 +227,9 @@ func TestE1Transport(t *testing.T) {
 				rep.Add(Finding{Kind: "oracle", Property: "C15", Oracle: fmt.Sprintf("a transport that was shut down and run again (Stop + Restart of its node) does not serve requests any more: 40 attempts over 2 s failed, last error: %v", lastErr), Case: line,
 					Signature: map[string]string{"oracle": "transport-serves-after-rerun"}})
 			}
+		}
+		if i%5 == 3 {
+			probePeer(i)
 		}
 		switch i % 4 {
 		case 0, 1:
